@@ -155,6 +155,47 @@ func randWireType(rng *rand.Rand, depth int, last bool) wireType {
 	return wireType{T: wireScalarNames[rng.Intn(len(wireScalarNames))]}
 }
 
+// wireLeadingVar: the maximal width of the VarInt / VarLong the encoding of t starts with (0: it starts with something else)
+func wireLeadingVar(t wireType) int {
+	switch t.T {
+	case "varint", "str", "bytes", "bitset":
+		return 5
+	case "varlong":
+		return 10
+	case "ary":
+		switch t.L {
+		case "varint":
+			return 5
+		case "varlong":
+			return 10
+		}
+	case "tuple":
+		if len(t.Es) > 0 {
+			return wireLeadingVar(t.Es[0])
+		}
+	}
+	return 0
+}
+
+// padFirstVar re-spells the VarInt at the start of in with `extra` more bytes (continuation bit on its last byte, then
+// 0x80 ... 0x00): the same value in a longer, still legal spelling
+func padFirstVar(in []byte, extra, max int) ([]byte, bool) {
+	n := 0
+	for n < len(in) && in[n] >= 0x80 {
+		n++
+	}
+	if n >= len(in) || n+1+extra > max {
+		return nil, false
+	}
+	out := append([]byte{}, in[:n]...)
+	out = append(out, in[n]|0x80)
+	for i := 0; i < extra-1; i++ {
+		out = append(out, 0x80)
+	}
+	out = append(out, 0x00)
+	return append(out, in[n+1:]...), true
+}
+
 func randPattern(rng *rand.Rand, w int) []any {
 	b := make([]byte, w)
 	switch rng.Intn(4) {
@@ -367,7 +408,7 @@ func wireRejudgeLine(env *vk.Env, raw []byte) (sig, detail string, rejected bool
 }
 
 func runC06(env *vk.Env) {
-	env.Cov.Rule = "TLC enumerates Wire.tla's menu of type expressions (all scalar field types, Option/Opt/Ary with all eight length-prefix types/Tuple to depth 3) x boundary values, checks Dec(Enc(v)) = (v, n) with a tail and that strict prefixes fail, and prints one vector per state; every vector runs on the real fields (2 API variants x 5 prior destination shapes x 2 reader kinds, Marshal/Builder/Scan). Random compositions/values are recorded and judged by Wire_Trace. Distinct/non-trivial = distinct type-expression classes exercised."
+	env.Cov.Rule = "TLC enumerates Wire.tla's menu of type expressions (all scalar field types, Option/Opt/Ary with all eight length-prefix types/Tuple to depth 3) x boundary values, checks Dec(Enc(v)) = (v, n) with a tail and that strict prefixes fail, and prints one vector per state; every vector runs on the real fields (2 API variants x 5 prior destination shapes x 2 reader kinds, Marshal/Builder/Scan). Random compositions/values are recorded and judged by Wire_Trace, also behind length prefixes / VarInts re-spelt in a longer legal form. Distinct/non-trivial = distinct type-expression classes exercised."
 	env.Assume = []string{"NaN payloads are compared by bit pattern", "Opt with unsupported Has kinds (documented panic) is not generated", "NBT fields are covered with the NBT specification (C01)"}
 	res := env.MustSpec(vk.TLCRun{Name: "S+A Wire_MC", Module: "Wire", Cfg: "Wire_MC.cfg", Workers: 8, Timeout: 15 * time.Minute})
 	if res == nil {
@@ -410,6 +451,14 @@ func runC06(env *vk.Env) {
 		in := append(bytesOf(ev.Bytes), wireTail(t)...)
 		tr.Add(wireDecEvent(t, variant, in, wirePriors[rng.Intn(len(wirePriors))], v, rng.Intn(2) == 0, "valid"))
 		env.Distinct("rand/" + t.class())
+		// the same value behind a length prefix (or as a VarInt / VarLong) that the sender did not write in its shortest
+		// form: the decoder accepts such prefixes, so the count it reports must be that of the bytes it took
+		if max := wireLeadingVar(t); max > 0 && rng.Intn(2) == 0 {
+			if padded, ok := padFirstVar(in, 1+rng.Intn(3), max); ok {
+				tr.Add(wireDecEvent(t, variant, padded, wirePriors[rng.Intn(len(wirePriors))], v, rng.Intn(2) == 0, "padded-prefix"))
+				env.Distinct("padded/" + t.class())
+			}
+		}
 		if tr.N >= 20000 { // TLC loads a trace file into memory: judge in chunks
 			part++
 			wireJudge(env, tr, fmt.Sprintf("B random compositions [part %d]", part), "C06")
